@@ -997,6 +997,16 @@ impl Property for P14 {
                 items.push(WKind::Val(ValSpec { ty: family, size, seed: r.next_u64() }));
             }
         }
+        if r.chance(1, 3) {
+            // byte-identical consecutive frames
+            for i in 1..items.len() {
+                if r.chance(1, 4) {
+                    if let WKind::Val(v) = items[i - 1].clone() {
+                        items[i] = WKind::Val(v);
+                    }
+                }
+            }
+        }
         if en_hostile {
             let declared = match r.below(4) {
                 0 => HOSTILE_MIN + 1 + r.below(1000) as u32,
